@@ -31,6 +31,11 @@ TEMPLATES = {
     "block": "x{% block b %}[{{ f('1') }}|{{ f('2') }}]{% endblock %}y{{ f('3') }}",
     "nested": "{% block a %}<{{ f('1') }}{% block b %}({{ f('2') }}){% endblock %}{{ f('3') }}>{% endblock %}",
     "base": "B{% block a %}ba{{ f('b1') }}{% endblock %}M{% block c %}bc{{ f('b2') }}{% endblock %}E",
+    # placeholder blocks (empty, whitespace-only, only a nested block) filled in by a child / grandchild
+    "ebase": "A{% block t %}{% endblock %}B{% block u %} {% endblock %}C{% block w %}{% block w2 %}{% endblock %}{% endblock %}D{{ f('9') }}",
+    "echild": "{% extends 'ebase' %}{% block t %}x{{ f('1') }}y{{ f('2') }}{% endblock %}{% block u %}u{{ f('3') }}{% endblock %}{% block w2 %}w{{ f('4') }}v{% endblock %}",
+    "emid": "{% extends 'ebase' %}{% block t %}{% endblock %}{% block u %}{{ super() }}{% endblock %}",
+    "egrand": "{% extends 'emid' %}{% block t %}g{{ f('1') }}h{% endblock %}{% block u %}{{ super() }}k{{ f('2') }}{% endblock %}",
     "child": "{% extends 'base' %}{% block a %}ca{{ f('1') }}{{ super() }}{{ f('2') }}{% endblock %}",
     "grand": "{% extends 'child' %}{% block a %}ga{{ f('g1') }}{{ super() }}{% endblock %}{% block c %}gc{{ f('g2') }}{% endblock %}",
     "selfcall": "{% block a %}A{{ f('1') }}{% endblock %}-{{ self.a() }}-{{ f('2') }}",
@@ -86,7 +91,7 @@ TEMPLATES = {
     "block_in_loop": "{% for x in items %}{% block a scoped %}{{ x }}{{ f('1') }}{% endblock %}{% endfor %}",
     "super_loopfilter": "{% extends 'base' %}{% block a %}{% for x in items if x != 2 %}{{ super() }}{% endfor %}{% endblock %}",
 }
-HELPERS = {"base", "inc", "inc2", "lib"}
+HELPERS = {"base", "inc", "inc2", "lib", "ebase", "emid"}
 
 
 def make_env():
